@@ -125,7 +125,9 @@ func SimpleObject(val any) (obj Object) {
 	case map[string]any:
 		list := make(List, 0, len(tv))
 		for k, v2 := range tv {
-			list = append(list, Cons(String(k), SimpleObject(v2)))
+			// The entry of a map is the pair (key . value) whatever the value
+			// is: ObjectToBag and Simplify tell an object from an array by it.
+			list = append(list, List{String(k), Tail{Value: SimpleObject(v2)}})
 		}
 		obj = list
 
